@@ -25,8 +25,9 @@ TStep == /\ tid <= Len(Traces) /\ st = "run" /\ More /\ Len(bad) < 4
             IN bad' = bad \o c1 \o c2 \o c3 \o c4 /\ p' = x.next
          /\ k' = k + 1 /\ UNCHANGED <<tid, st>>
 TNext == /\ tid <= Len(Traces) /\ st = "run" /\ (~More \/ Len(bad) >= 4)
-         /\ LET e1 == IF Len(R.entries) # k - 1 THEN <<V("C17.exception_count", k - 1, Len(R.entries))>> ELSE <<>>
-                e2 == IF Has("bc") /\ Len(R.bc) # k - 1 THEN <<V("C17.bytecode_exception_count", k - 1, Len(R.bc))>> ELSE <<>>
+         /\ LET whole == ~More      \* the counts are compared only when the table was read to its end (not when the case was cut short by 4 findings)
+                e1 == IF whole /\ Len(R.entries) # k - 1 THEN <<V("C17.exception_count", k - 1, Len(R.entries))>> ELSE <<>>
+                e2 == IF whole /\ Has("bc") /\ Len(R.bc) # k - 1 THEN <<V("C17.bytecode_exception_count", k - 1, Len(R.bc))>> ELSE <<>>
                 all == bad \o e1 \o e2
             IN \A i \in 1..Len(all) : PrintT(<<"V", ToJson(all[i])>>)
          /\ tid' = tid + 1 /\ p' = 0 /\ k' = 1 /\ bad' = <<>> /\ UNCHANGED st
